@@ -106,35 +106,26 @@ theorem hand_roundtrip' (c : Codec) (ty : String) (n : NG) (hok : okG (forgetNil
 
 /-! ### receivers -/
 
-/-- history matters only ACROSS the coordinates / geometries divide: a receiver whose other field is
-    nil ends up exactly as a new one -/
-theorem geom_receiver_same_arm' (old : GRecv) (d : DG) (h1 : d.isColl = false → old.geoms = none)
-    (h2 : d.isColl = true → old.coords = none) : old.assign d = ({} : GRecv).assign d := by
+/-- after fix C02-3 every arm assigns both fields: the receiver's history does not matter -/
+theorem geom_receiver_any' (old : GRecv) (d : DG) : old.assign d = ({} : GRecv).assign d := by
   cases old with
   | mk ty co ge =>
     cases d with
     | mk v bare =>
       cases v with
-      | nilIface =>
-        have := h1 rfl
-        simp_all [GRecv.assign, GRecv.geometry, DG.isColl]
-      | nilSlice k =>
-        have := h1 rfl
-        simp_all [GRecv.assign, GRecv.geometry, DG.isColl]
-      | val g =>
-        cases g with
-        | collection gs =>
-          have := h2 rfl
-          simp_all [GRecv.assign, GRecv.geometry, DG.isColl]
-        | _ =>
-          have := h1 rfl
-          simp_all [GRecv.assign, GRecv.geometry, DG.isColl]
+      | nilIface => simp [GRecv.assign, GRecv.geometry]
+      | nilSlice k => simp [GRecv.assign, GRecv.geometry]
+      | val g => cases g <;> simp [GRecv.assign, GRecv.geometry]
 
-theorem geom_receiver_clean' (c : Codec) (old : GRecv) (j : Json) (hc : old.coords = none)
-    (hg : old.geoms = none) : geomInto c old j = geomInto c {} j := by
+theorem geom_receiver_same_arm' (old : GRecv) (d : DG) (_h1 : d.isColl = false → old.geoms = none)
+    (_h2 : d.isColl = true → old.coords = none) : old.assign d = ({} : GRecv).assign d :=
+  geom_receiver_any' old d
+
+theorem geom_receiver_clean' (c : Codec) (old : GRecv) (j : Json) (_hc : old.coords = none)
+    (_hg : old.geoms = none) : geomInto c old j = geomInto c {} j := by
   simp only [geomInto]
   cases decodeGeometry c j with
-  | ok d => simp only [Res.map]; rw [geom_receiver_same_arm' old d (fun _ => hg) (fun _ => hc)]
+  | ok d => simp only [Res.map]; rw [geom_receiver_any' old d]
   | err e => rfl
   | panic s => rfl
 
@@ -143,16 +134,18 @@ def geom_receiver_history_full : Prop :=
   ∀ (c : Codec) (old r r0 : GRecv) (j : Json),
     geomInto c old j = .ok r → geomInto c {} j = .ok r0 → r.geometry = r0.geometry
 
-/-- … which is FALSE: a GeometryCollection document decoded into a receiver that holds a point
-    leaves `Coordinates` alone, and `Geometry()` still answers the point. -/
-theorem geom_receiver_history_full_false' : ¬ geom_receiver_history_full := by
-  intro h
-  have := h .json { coords := some (.val (.point ⟨0, 0⟩)) }
-    { ty := "Point", coords := some (.val (.point ⟨0, 0⟩)), geoms := none }
-    { ty := "GeometryCollection", coords := none, geoms := none }
-    (.obj [("type", .str "GeometryCollection")]) rfl rfl
-  simp [GRecv.geometry] at this
-
+/-- … which HOLDS since fix C02-3 (the whole receiver agrees, not only `Geometry()`). -/
+theorem geom_receiver_history_full_true' : geom_receiver_history_full := by
+  intro c old r r0 j h h0
+  simp only [geomInto] at h h0
+  cases hd : decodeGeometry c j with
+  | ok d =>
+    rw [hd] at h h0
+    simp only [Res.map] at h h0
+    cases h; cases h0
+    rw [geom_receiver_any' old d]
+  | err e => rw [hd] at h; cases h
+  | panic s => rw [hd] at h; cases h
 
 /-- only the "GeometryCollection" arm without a "geometries" member leaves both fields nil -/
 theorem finishGeometry_bare (c : Codec) (st : GSt) (d : DG) (h : finishGeometry c st = .ok d)
